@@ -12,6 +12,9 @@ impl RdfObject {
     pub const fn is_literal(&self) -> bool {
         matches!(self, Self::LangString(..) | Self::TypedLiteral(..))
     }
+    pub fn is_plain_string(&self) -> bool {
+        matches!(self, Self::TypedLiteral(_, dt) if dt.as_str() == "http://www.w3.org/2001/XMLSchema#string")
+    }
     pub const fn is_node(&self) -> bool {
         matches!(self, Self::Node(..))
     }
